@@ -62,6 +62,26 @@ def adjacency_function(case):
         return periodic_neighbours(per)
     if a[0] == 'diag':
         return diag_neighbours
+    if a[0] == 'cut':
+        # a user adjacency: the default one, except that the listed pixels are cut off (they have no neighbours and are
+        # nobody's neighbour) - e.g. pixels a mask declares unusable
+        cut = set(int(p) for p in a[1])
+        shape = tuple(case['shape'])
+
+        def cut_neighbours(dendrogram, idx):
+            me = tuple(int(i) for i in idx)
+            if ravel(shape, me) in cut:
+                return []
+            out = []
+            for k in range(len(me)):
+                for dlt in (1, -1):
+                    q = list(me)
+                    q[k] += dlt
+                    if all(0 <= x < s_ for x, s_ in zip(q, shape)) and ravel(shape, tuple(q)) in cut:
+                        continue
+                    out.append(tuple(q))
+            return out
+        return cut_neighbours
     raise ValueError(a)
 
 
